@@ -26,25 +26,27 @@ import (
 // ---------- C15: CLI exit status 0 iff the whole result was delivered ----------
 
 type c15Case struct {
-	Op           string `json:"op"`  // enc | dec | keygen | keygen-y
-	Key          string `json:"key"` // x25519-r | x25519-R | x25519-i | ed25519 | rsa
-	Armor        bool   `json:"armor"`
-	PlainLen     int    `json:"plainLen"`
-	Stdin        bool   `json:"stdin"`
-	Out          string `json:"out"` // stdout | new | existing | missing-parent | parent-is-file | long-name | fsize | o-devfull | pipe-close | stdout-devfull | stdout-closed
-	OutLimit     int    `json:"outLimit"`
-	Damage       string `json:"damage"` // none | header-bit | mac | payload-bit | truncate
-	DmgPos       int    `json:"dmgPos"`
-	Ident        string `json:"ident"`    // right | wrong | none
-	Flags        string `json:"flags"`    // "" | d+a | d+p | d+r | p+r | two-inputs | e+d | no-recipient | i-without-e
-	SameFile     string `json:"sameFile"` // "" | input | identity | recipients
-	Spelling     int    `json:"spelling"`
-	Umask        int    `json:"umask"`
-	NKeys        int    `json:"nkeys"`        // keygen-y: identities in the input
-	Long         bool   `json:"long"`         // long spellings of the flags (--decrypt, --output, ...)
-	Dash         bool   `json:"dash"`         // "-" for standard input / output where it applies
-	Symlink      bool   `json:"symlink"`      // same-file cases: the input / key file is itself a symbolic link
-	StdinIDFirst bool   `json:"stdinIdFirst"` // decrypt: an extra "-i -" (identities on stdin) precedes "-i key.txt"
+	Op       string `json:"op"`  // enc | dec | keygen | keygen-y
+	Key      string `json:"key"` // x25519-r | x25519-R | x25519-i | ed25519 | rsa
+	Armor    bool   `json:"armor"`
+	PlainLen int    `json:"plainLen"`
+	Stdin    bool   `json:"stdin"`
+	Out      string `json:"out"` // stdout | new | existing | missing-parent | parent-is-file | long-name | fsize | o-devfull | pipe-close | stdout-devfull | stdout-closed
+	OutLimit int    `json:"outLimit"`
+	Damage   string `json:"damage"` // none | header-bit | mac | payload-bit | truncate
+	DmgPos   int    `json:"dmgPos"`
+	Ident    string `json:"ident"`    // right | wrong | none
+	Flags    string `json:"flags"`    // "" | d+a | d+p | d+r | p+r | two-inputs | e+d | no-recipient | i-without-e
+	SameFile string `json:"sameFile"` // "" | input | identity | recipients
+	Spelling int    `json:"spelling"`
+	// LinkCwd: the command runs in a working directory reached through a symbolic link ($PWD differs from the physical path)
+	LinkCwd      bool `json:"linkCwd,omitempty"`
+	Umask        int  `json:"umask"`
+	NKeys        int  `json:"nkeys"`        // keygen-y: identities in the input
+	Long         bool `json:"long"`         // long spellings of the flags (--decrypt, --output, ...)
+	Dash         bool `json:"dash"`         // "-" for standard input / output where it applies
+	Symlink      bool `json:"symlink"`      // same-file cases: the input / key file is itself a symbolic link
+	StdinIDFirst bool `json:"stdinIdFirst"` // decrypt: an extra "-i -" (identities on stdin) precedes "-i key.txt"
 }
 
 var c15LongFlags = map[string]string{"-d": "--decrypt", "-e": "--encrypt", "-o": "--output", "-a": "--armor", "-p": "--passphrase", "-r": "--recipient", "-R": "--recipients-file", "-i": "--identity"}
@@ -80,6 +82,10 @@ func c15Run(dir string, launch string, stdin []byte, stdoutMode string, limit in
 		env = append(env, "VERIF_LAUNCH="+launch)
 	} else {
 		cmd = exec.Command(bin, args...)
+	}
+	if fi, err := os.Lstat(dir); err == nil && fi.Mode()&os.ModeSymlink != 0 {
+		// as after "cd link" in a shell: $PWD names the directory the way the user reached it
+		env = append(env, "PWD="+dir)
 	}
 	cmd.Dir = dir
 	cmd.Env = env
@@ -223,6 +229,12 @@ func c15Check(c c15Case, st *stats.Run) error {
 	dir, _ = filepath.Abs(dir)
 	defer os.RemoveAll(dir)
 	os.Mkdir(filepath.Join(dir, "d"), 0o755)
+	runDir := dir
+	if c.LinkCwd {
+		runDir = dir + "-ln"
+		os.Symlink(dir, runDir)
+		defer os.Remove(runDir)
+	}
 	plain := hx.PRG(15, c.PlainLen)
 
 	// key material in files
@@ -397,7 +409,7 @@ func c15Check(c c15Case, st *stats.Run) error {
 		sameTarget = "recips.txt"
 	}
 	if sameTarget != "" {
-		outPath = spell(sameTarget, dir, c.Spelling)
+		outPath = spell(sameTarget, runDir, c.Spelling)
 		launch, stdoutMode = "", ""
 		if c.Symlink {
 			// the file the user names is a symbolic link into another directory
@@ -508,7 +520,7 @@ func c15Check(c c15Case, st *stats.Run) error {
 	}
 	args = c15Spell(args, c.Long)
 	before := snap(dir)
-	res := c15Run(dir, launch, stdin, stdoutMode, c.OutLimit, filepath.Join(bin, "age"), args...)
+	res := c15Run(runDir, launch, stdin, stdoutMode, c.OutLimit, filepath.Join(bin, "age"), args...)
 	if res.killed || res.code == -3 {
 		st.Label("inconclusive-timeout-or-spawn")
 		return nil
@@ -820,6 +832,15 @@ func c15RunPty(dir string, answers []string, bin string, args ...string) (procRe
 	return c15RunPtyOpt(dir, answers, false, bin, args...)
 }
 
+// c15RunPtyEnv is c15RunPty with additional environment variables.
+func c15RunPtyEnv(dir string, env []string, answers []string, bin string, args ...string) (procResult, string) {
+	c15ExtraEnv = env
+	defer func() { c15ExtraEnv = nil }()
+	return c15RunPtyOpt(dir, answers, false, bin, args...)
+}
+
+var c15ExtraEnv []string
+
 func c15RunPtyOpt(dir string, answers []string, stdoutTTY bool, bin string, args ...string) (procResult, string) {
 	m, s, err := hx.OpenPTY()
 	if err != nil {
@@ -829,6 +850,9 @@ func c15RunPtyOpt(dir string, answers []string, stdoutTTY bool, bin string, args
 	cmd := exec.Command(bin, args...)
 	cmd.Dir = dir
 	cmd.Env = []string{"PATH=/nonexistent", "HOME=" + dir}
+	if c15ExtraEnv != nil {
+		cmd.Env = c15ExtraEnv
+	}
 	var so, se bytes.Buffer
 	cmd.Stdout, cmd.Stderr = &so, &se
 	if stdoutTTY {
@@ -1108,6 +1132,7 @@ func c15Gen(t *rapid.T) c15Case {
 		c.Spelling = rapid.IntRange(0, 5).Draw(t, "spelling")
 		c.Symlink = rapid.IntRange(0, 2).Draw(t, "symlink") == 0
 		c.StdinIDFirst = rapid.IntRange(0, 2).Draw(t, "stdinIdFirst") == 0
+		c.LinkCwd = rapid.IntRange(0, 3).Draw(t, "linkCwd") == 0
 	case 3:
 		c.Flags = "input-dir"
 	}
@@ -1372,7 +1397,15 @@ func TestC15(t *testing.T) {
 			} {
 				cs.Spelling, cs.PlainLen, cs.Damage, cs.Ident, cs.Umask, cs.Out = sp, 50, "none", "right", -1, "new"
 				for _, sl := range []bool{false, true} {
-					cs.Symlink = sl
+					cs.Symlink, cs.LinkCwd = sl, false
+					if s.Mine(n) {
+						yield(cs)
+					}
+					n++
+				}
+				if sp == 3 || sp == 0 {
+					// the working directory is reached through a symbolic link; -o spelled relative or with the logical absolute path
+					cs.Symlink, cs.LinkCwd = false, true
 					if s.Mine(n) {
 						yield(cs)
 					}
